@@ -154,7 +154,9 @@ TickRules(k, t) ==
                                  t <= Max(e.released, e.lastRxAt) + e.cfg.inactivity + 1000000 + 5000000 + Eps, "">>,
           <<k, "C03.AbortSurfaces", e.ended /\ e.pend # {}, FALSE, "">>,
           <<k, "C19.WriteNotStuck", "write" \in e.pend /\ alive, R_C19_WriteNotStuck(e), "">>,
-          <<k, "C02.NoStall", fair /\ undel, ~quiet, IF e.pwnd = 0 THEN "pwnd=0" ELSE "">>,
+          \* (known finding D4: the sender believes the window is zero although the receiver has since advertised
+          \*  a non-zero one - that acknowledgement was lost and nothing repeats it)
+          <<k, "C02.NoStall", fair /\ undel, ~quiet, IF e.pwnd = 0 /\ hasPeer /\ p.lastWnd > 0 /\ e.rxCount > 0 THEN "pwnd=0" ELSE "">>,
           <<k, "C02.Silence", meta.class = "loss-free" /\ undel,
                               t - Max(e.lastWire, p.lastWire) <= 2 * meta.lat + ACK_DELAY + Eps, "">> }
 
@@ -172,7 +174,8 @@ Tick(r) ==
                                 !.ackDue = IF @ >= 0 /\ r.now > @ + Eps THEN -1 ELSE @,
                                 !.pend = IF eps[k].ended THEN {} ELSE @,
                                 !.stalled = IF @ = "" /\ (Stalled(k) \/ (Live(eps[k].cfg.peer) /\ Stalled(eps[k].cfg.peer)))
-                                            THEN (IF eps[k].pwnd = 0 \/ (Live(eps[k].cfg.peer) /\ eps[eps[k].cfg.peer].pwnd = 0)
+                                            THEN (IF \/ (eps[k].pwnd = 0 /\ Live(eps[k].cfg.peer) /\ eps[eps[k].cfg.peer].lastWnd > 0)
+                                                     \/ (Live(eps[k].cfg.peer) /\ eps[eps[k].cfg.peer].pwnd = 0 /\ eps[k].lastWnd > 0)
                                                   THEN "after-zero-window-stall" ELSE "after-stall")
                                             ELSE @]]
 
@@ -235,7 +238,7 @@ TxEndpoint(r, h, k) ==
         post == IF ~isData THEN {} ELSE { <<"C06.Cap", TRUE, R_C06_Cap(e1, s)>> }
         pk == e.cfg.peer
         splitDel == isData /\ IsSplit(e, s, r.plen) /\ Live(pk) /\ D(s, eps[pk].rnxt) <= 0
-        e2 == [Emitted(e1, h.ack, wnd, now) EXCEPT !.splitDelivered = @ \/ splitDel,
+        e2 == [Emitted(e1, h.ack, wnd, now) EXCEPT !.splitDelivered = @ \/ splitDel, !.lastEmitAt = now,
                                                    !.synAcks = IF handshake /\ h.type = ST_STATE /\ (e.txCount = 0 \/ ~e.stim) THEN @ + 1 ELSE @,
                                                    !.idleWr = IF isData THEN 0 ELSE @,
                                                    !.drainDue = IF isData THEN 0 ELSE @]
@@ -355,6 +358,7 @@ Recv(r) ==
                 drain == /\ SentUnacked(e) /\ ~SentUnacked(e1) /\ e1.nextOff < e1.wr /\ e1.pwnd >= e1.cfg.link_mtu
                          /\ r.state = "established" /\ e1.peerFin < 0 /\ ~e1.txPending
                 e2 == [e1 EXCEPT !.state = r.state, !.stim = TRUE, !.rxCount = @ + 1, !.lastRxAt = now,
+                                 !.lastDataRxAt = IF r.t \in {ST_DATA, ST_FIN} THEN now ELSE @,
                                  !.maxArr = IF r.t = ST_DATA /\ ActsOn(e, r) THEN Max(@, r.plen) ELSE @,
                                  !.drainDue = IF drain THEN l ELSE @,
                                  !.lastWire = now,
@@ -532,6 +536,9 @@ Poll(r) ==
                                                                  ELSE IF @ = r.t_rtx THEN @ ELSE -1,
                                                    !.ringCap = r.ring_cap, !.txPending = r.pending]]
 
+\* the endpoint took a DATA / FIN packet in more than 100 ms ago and has emitted nothing since
+Silent(x) == eps[x].lastDataRxAt >= 0 /\ eps[x].lastEmitAt < eps[x].lastDataRxAt /\ now - eps[x].lastDataRxAt > 100000
+
 Dying(r) ==
     LET k == Key(r) IN
     /\ UNCHANGED <<run, now, meta, sendIdx, app, infl, sk, pairs, last>>
@@ -540,7 +547,10 @@ Dying(r) ==
             /\ eps' = [eps EXCEPT ![k].dying = r.result,
                                   \* known finding: the inactivity abort fires while a retransmission is still
                                   \* scheduled (RTO back-off can exceed the inactivity timeout)
+                                  \* (that finding is about packets the NETWORK lost: it does not cover an endpoint that took
+                                  \*  a data packet in and never answered it)
                                   ![k].deathCtx = IF r.result = "remote was inactive for too long"
+                                                     /\ ~Silent(k) /\ ~(Live(eps[k].cfg.peer) /\ Silent(eps[k].cfg.peer))
                                                      /\ \/ ((SentUnacked(eps[k]) \/ FinUnacked(eps[k])) /\ eps[k].tRtx >= now)
                                                         \/ (LET pk == eps[k].cfg.peer IN
                                                              Live(pk) /\ (SentUnacked(eps[pk]) \/ FinUnacked(eps[pk])) /\ eps[pk].tRtx >= now)
